@@ -182,6 +182,9 @@ func mapRun(input string) string {
 	if parts[0] == "S" {
 		return mapRunSrc(keys, ops)
 	}
+	if parts[0] == "I" { // source, with iteration / inequality observations and more operations: mapops_iter.go
+		return mapRunIter(keys, ops)
+	}
 	return mapRunAPI(keys, ops)
 }
 
@@ -379,4 +382,5 @@ func mapGen(tier string, r *rng, emit func(string)) {
 			}
 		}
 	}
+	mapIterGen(tier, r, emit) // mode I: mapops_iter.go
 }
